@@ -73,7 +73,9 @@ def shards(tier, seed):
     out.append(("trailing",))
     out.append(("wsgi_seq",))
     out += [("wsgi_threads", n, t) for n in (1, 2, 3) for t in (1, 2)]
-    out += [("wsgi_threads", n, t, 2.5) for n in (2, 3) for t in (0, 1)]  # a server that needs 2.5 ping intervals to write out each item
+    out += [("wsgi_threads", n, t, 2.5) for n in (2, 3) for t in (0, 1)]
+    out.append(("serialiser_pairs",))
+    out.append(("charsets",))  # a server that needs 2.5 ping intervals to write out each item
     out += [("asgi_seq", k) for k in range(8)]
     return out
 
@@ -133,6 +135,54 @@ def wsgi_sequences(r):
     r.sample({"wsgi_sequence": [MENU[0], MENU[2]]})
 
 
+CHARSET_EVENTS = [{"data": "é"}, {"event": "名", "data": "中文\n第二行"}, {"id": "ü1", "data": "x"}, {"data": "plain"}]
+
+
+def charset_responses(r):
+    """The charset the response announces in Content-Type is the charset its body is written in, on both interfaces, for
+    the default and for every requested charset; decoding by the announced charset gives the events back."""
+    import re as _re
+    for iface in ("wsgi", "asgi"):
+        mod = __import__("baize.wsgi" if iface == "wsgi" else "baize.asgi", fromlist=["SendEventResponse"])
+        for charset in (None, "utf-8", "gbk", "latin-1", "big5", "shift_jis", "UTF-8", "iso-8859-15"):  # ASCII-compatible charsets only: line ends and field names are written as ASCII bytes
+            for k in range(1, len(CHARSET_EVENTS) + 1):
+                for combo in itertools.combinations(CHARSET_EVENTS, k):
+                    events = [dict(e) for e in combo]
+                    try:
+                        for e in events:
+                            for v in e.values():
+                                str(v).encode(charset or "utf-8")
+                    except UnicodeEncodeError:
+                        continue  # not representable in this charset: not part of the claim
+                    r.count("evaluations")
+                    r.count("traces")
+                    r.count("distinct_nontrivial")
+                    w = {"kind": "charset", "iface": iface, "charset": charset, "events": events}
+                    kw = {} if charset is None else {"charset": charset}
+                    if iface == "wsgi":
+                        resp = mod.SendEventResponse((dict(e) for e in events), ping_interval=30, **kw)
+                        res = SV.run_wsgi(resp, SV.to_environ(SV.AReq()))
+                    else:
+                        async def gen(events=events):
+                            for e in events:
+                                yield dict(e)
+                        resp = mod.SendEventResponse(gen(), ping_interval=30, **kw)
+                        res = SV.run_asgi(resp, SV.to_scope(SV.AReq()), SV.to_messages(SV.AReq()))
+                    if res.exc is not None or res.problems:
+                        r.violation("charset:failed", w, f"{iface} SendEventResponse(charset={charset!r}) over {events} failed: {res.exc!r} {res.problems[:1]}")
+                        continue
+                    ct = res.header("content-type") or ""
+                    m = _re.search(r"charset=([\w-]+)", ct)
+                    announced = m.group(1) if m else None
+                    if announced is None or (charset is not None and announced.lower() != charset.lower()):
+                        r.violation("charset:not-announced", w, f"{iface} SendEventResponse(charset={charset!r}): Content-Type {ct!r}")
+                        continue
+                    p = judge_stream(events, res.body, announced)
+                    if p:
+                        r.violation("charset:" + p[0], w, f"{iface} SendEventResponse(charset={charset!r}) announces {ct!r}; decoded that way: {p[1]}")
+    r.sample({"charset": "gbk", "events": CHARSET_EVENTS[:2]})
+
+
 def judge_stream(events, body, charset):
     try:
         blocks = split_stream(body, charset)
@@ -146,6 +196,55 @@ def judge_stream(events, body, charset):
         if p:
             return ("event-mismatch", f"event {i} {ev!r}: {p}; body {body!r:.200}")
     return None
+
+
+SER_EVENTS = [{"id": "s0", "event": "kind0", "data": "first-0\nsecond-0"}, {"id": "s1", "event": "kind1", "data": "first-1\nsecond-1\n"}, {"data": "x"}, {"retry": 5}, {"data": "é中\r\nz"}]
+
+
+def run_serialiser_pair(prefix, events, charsets):
+    """Two threads (two server threads writing two responses) serialise one event each at the same time; a switch is possible on
+    every line of baize/responses.py."""
+    import os
+    from ..core import vthreads as VT
+    from ..core.runner import REPO
+    from baize.responses import build_bytes_from_sse
+    jobs = [lambda i=i: build_bytes_from_sse(dict(events[i]), charsets[i]) for i in (0, 1)]
+    return VT.run_thread_pair(prefix, jobs, [os.path.join(REPO, "baize", "responses.py")])
+
+
+def judge_serialiser_pair(o, events, charsets):
+    from baize.responses import build_bytes_from_sse
+    if o["stuck"]:
+        return ["stuck"]
+    probs = []
+    for i in (0, 1):
+        alone = build_bytes_from_sse(dict(events[i]), charsets[i])
+        if o["results"][i] != alone:
+            probs.append(f"thread {i}: event {events[i]!r} serialised as {o['results'][i]!r} while the other thread serialised {events[1 - i]!r}; alone it gives {alone!r}")
+    return probs
+
+
+def serialiser_pairs(r, tier):
+    outs = set()
+    for i, j in itertools.product(range(len(SER_EVENTS)), repeat=2):
+        for charsets in (("utf-8", "utf-8"), ("utf-8", "gbk")):
+            if charsets[1] == "gbk" and (i > 1 or j != 4):
+                continue
+            events = [SER_EVENTS[i], SER_EVENTS[j]]
+
+            def on_exec(x):
+                r.count("evaluations")
+                r.count("traces")
+                r.count("transitions", len(x.choices))
+                outs.add(tuple(map(repr, x.obs["results"])))
+                probs = judge_serialiser_pair(x.obs, events, charsets)
+                if probs:
+                    r.violation("serialiser-pair", {"kind": "serialiser_pair", "events": events, "charsets": list(charsets), "schedule": list(x.choices)},
+                                f"two threads serialising events at the same time, schedule {x.obs['trace'][-14:]}: {probs[0]}")
+            dfs(lambda prefix: run_serialiser_pair(prefix, events, charsets), on_exec, bound=2 if tier == "quick" else 3)
+            r.count("distinct_nontrivial")
+    r.count("states", len(outs))
+    r.sample({"serialiser_pair": SER_EVENTS[:2], "preemption_bound": 2 if tier == "quick" else 3})
 
 
 def wsgi_threads(r, n, timeouts, tier, hold=0.0):
@@ -302,6 +401,11 @@ def run_shard(desc, tier):
             check_one(r, "d", {"id": name}, "utf-8")
         r.count("states", 1)
         r.count("transitions", int(r.c["evaluations"]))
+    elif desc[0] == "serialiser_pairs":
+        serialiser_pairs(r, tier)
+    elif desc[0] == "charsets":
+        charset_responses(r)
+        r.count("states", 1)
     elif desc[0] == "wsgi_threads":
         wsgi_threads(r, desc[1], desc[2], tier, *(desc[3:4]))
     elif desc[0] == "wsgi_seq":
@@ -326,6 +430,15 @@ def replay(w):
     elif w["kind"] == "trailing":
         rr = run_shard(("trailing",), "quick")
         return bool(rr.viol), {"violations": sorted(rr.viol)}
+    elif w["kind"] == "charset":
+        rr = R()
+        charset_responses(rr)
+        hits = {k: v for k, v in rr.viol.items() if v[1].get("iface") == w["iface"] and v[1].get("charset") == w["charset"]}
+        return bool(hits), {"violations": sorted(hits)}
+    elif w["kind"] == "serialiser_pair":
+        x = run_serialiser_pair(list(w["schedule"]), w["events"], w["charsets"])
+        probs = judge_serialiser_pair(x.obs, w["events"], w["charsets"])
+        return bool(probs), {"problems": probs, "trace": x.obs["trace"][-30:]}
     elif w["kind"] == "wsgi_threads_shared":
         from . import c06
         x = c06.run_wsgi_sse(list(w["schedule"]), w["n"], None, None, False, 0, None, False, 2, True)
